@@ -512,3 +512,119 @@ pub fn enum_sources(tokens: &str) -> Vec<(String, String, String)> {
     }
     out
 }
+
+// ---------------------------------------------------------------------------------------------
+// bodies of the `default_*` constructors (`impl Variables { pub fn default_x() -> T { <literal> } }`)
+
+fn lit_expr_sexp(e: &syn::Expr) -> Result<Sexp, String> {
+    use syn::Expr;
+    let path_segs = |p: &syn::Path| -> Vec<String> { p.segments.iter().map(|s| s.ident.to_string()).collect() };
+    match e {
+        Expr::Paren(p) => lit_expr_sexp(&p.expr),
+        Expr::Group(g) => lit_expr_sexp(&g.expr),
+        Expr::Lit(l) => match &l.lit {
+            syn::Lit::Bool(b) => Ok(tagged("bool", vec![boolean(b.value)])),
+            // (`quote!` prints an `f64` without a fraction as `1f64`: digits of an integer with a float suffix)
+            syn::Lit::Int(i) if i.suffix().starts_with('f') => Ok(tagged("float", vec![st(i.base10_digits())])),
+            syn::Lit::Int(i) => Ok(tagged("int", vec![atom(i.base10_digits())])),
+            syn::Lit::Float(f) => Ok(tagged("float", vec![st(f.base10_digits())])),
+            syn::Lit::Str(s) => Ok(tagged("bare-str", vec![st(&s.value())])),
+            other => Err(format!("unmodelled-construct: literal {}", nospace(other))),
+        },
+        Expr::Unary(u) if matches!(u.op, syn::UnOp::Neg(_)) => match lit_expr_sexp(&u.expr)? {
+            s if s.head() == Some("int") => Ok(tagged("int", vec![atom(&format!("-{}", s.items()[1].as_str().unwrap_or("0")))])),
+            s if s.head() == Some("float") => Ok(tagged("float", vec![st(&format!("-{}", s.items()[1].as_str().unwrap_or("0")))])),
+            other => Err(format!("unmodelled-construct: negated {}", other.render())),
+        },
+        Expr::MethodCall(m) if m.method == "to_string" && m.args.is_empty() => match lit_expr_sexp(&m.receiver)? {
+            s if s.head() == Some("bare-str") => Ok(tagged("str", vec![s.items()[1].clone()])),
+            other => Err(format!("unmodelled-construct: to_string on {}", other.render())),
+        },
+        Expr::Path(p) => {
+            let segs = path_segs(&p.path);
+            match segs.as_slice() {
+                [one] if one == "None" => Ok(tagged("none", vec![])),
+                [one] => Ok(tagged("ident", vec![st(one)])),
+                [a, b] => Ok(tagged("path", vec![st(a), st(b)])),
+                _ => Err(format!("unmodelled-construct: path {}", nospace(p))),
+            }
+        }
+        Expr::Call(c) => {
+            let f = match &*c.func {
+                Expr::Path(p) => path_segs(&p.path),
+                other => return Err(format!("unmodelled-construct: call of {}", nospace(other))),
+            };
+            let args = c.args.iter().map(lit_expr_sexp).collect::<Result<Vec<_>, _>>()?;
+            match (f.iter().map(|s| s.as_str()).collect::<Vec<_>>().as_slice(), args.len()) {
+                (["Some"], 1) => Ok(tagged("some", args)),
+                (["Box", "new"], 1) => Ok(tagged("box", args)),
+                ([a, b], 1) => Ok(tagged("variant", vec![st(a), st(b), args[0].clone()])),
+                _ => Err(format!("unmodelled-construct: call {}", nospace(c))),
+            }
+        }
+        Expr::Macro(m) => {
+            let name = m.mac.path.segments.last().map(|s| s.ident.to_string()).unwrap_or_default();
+            match name.as_str() {
+                "vec" => {
+                    let parser = syn::punctuated::Punctuated::<syn::Expr, syn::Token![,]>::parse_terminated;
+                    let elems = syn::parse::Parser::parse2(parser, m.mac.tokens.clone()).map_err(|e| format!("unmodelled-construct: vec! contents: {}", e))?;
+                    Ok(tagged("vec", elems.iter().map(lit_expr_sexp).collect::<Result<Vec<_>, _>>()?))
+                }
+                "compile_error" => {
+                    let msg: syn::LitStr = syn::parse2(m.mac.tokens.clone()).map_err(|e| format!("unmodelled-construct: compile_error! contents: {}", e))?;
+                    Ok(tagged("compile-error", vec![st(&msg.value())]))
+                }
+                other => Err(format!("unmodelled-construct: macro {}!", other)),
+            }
+        }
+        Expr::Struct(s) => {
+            let segs = path_segs(&s.path);
+            if segs.len() != 1 || s.rest.is_some() {
+                return Err(format!("unmodelled-construct: struct literal {}", nospace(&s.path)));
+            }
+            let mut fields = Vec::new();
+            for f in &s.fields {
+                let name = match &f.member {
+                    syn::Member::Named(i) => i.to_string(),
+                    syn::Member::Unnamed(_) => return Err("unmodelled-construct: tuple member in a struct literal".into()),
+                };
+                fields.push(list(vec![st(&name), lit_expr_sexp(&f.expr)?]));
+            }
+            let mut items = vec![st(&segs[0])];
+            items.extend(fields);
+            Ok(tagged("struct", items))
+        }
+        other => Err(format!("unmodelled-construct: default expression {}", nospace(other).chars().take(80).collect::<String>())),
+    }
+}
+
+/// per module of the token stream: the `default_*` functions of `impl Variables` with their bodies as literal expressions
+/// (the language of `Model/DefaultLit.lean`)
+pub fn default_bodies(tokens: &str) -> Result<Vec<(String, Vec<(String, Sexp)>)>, String> {
+    let file: syn::File = syn::parse_str(tokens).map_err(|e| format!("emitted code does not parse: {}", e))?;
+    let mut out = Vec::new();
+    for item in &file.items {
+        if let syn::Item::Mod(m) = item {
+            let mut fns = Vec::new();
+            if let Some((_, content)) = &m.content {
+                for it in content {
+                    if let syn::Item::Impl(imp) = it {
+                        if imp.trait_.is_none() && nospace(&imp.self_ty) == "Variables" {
+                            for i in &imp.items {
+                                if let syn::ImplItem::Fn(f) = i {
+                                    let body = match f.block.stmts.as_slice() {
+                                        [syn::Stmt::Expr(e, None)] => lit_expr_sexp(e)?,
+                                        _ => return Err(format!("unmodelled-construct: body of {}", f.sig.ident)),
+                                    };
+                                    fns.push((f.sig.ident.to_string(), body));
+                                }
+                            }
+                        }
+                    }
+                }
+            }
+            out.push((m.ident.to_string(), fns));
+        }
+    }
+    Ok(out)
+}
